@@ -261,4 +261,61 @@ theorem mjx_imp_eq_c (D0 D1 W M P x0 : ℝ) (hD : D0 ≤ D1) (hW : 1 / 10 ^ 15 <
     rw [mjxImp_real, cImp_real _ _ _ _ _ _ hW hne]
     exact impJ_eq_impC D0 D1 M P _ hD hM0 hM1 hP (div_nonneg (abs_nonneg _) hWpos.le)
 
+/-! ### layout of the sparse inertia matrix (core lemmas for `mjx_euler_damping_on_diagonal`) -/
+
+theorem flatten_last (rows : List (List Nat)) (i : Nat) (r : List Nat) (h : rows[i]? = some r) (hne : r ≠ []) :
+    rows.flatten[rowAdr rows i + r.length - 1]? = r.getLast? := by
+  induction rows generalizing i with
+  | nil => simp at h
+  | cons a rest ih =>
+    cases i with
+    | zero =>
+      simp at h; subst h
+      have hl : 0 < a.length := List.length_pos_iff.2 hne
+      simp only [rowAdr, List.take_zero, List.map_nil, List.sum_nil, Nat.zero_add, List.flatten_cons]
+      rw [List.getElem?_append_left (by omega), List.getLast?_eq_getElem?]
+    | succ j =>
+      simp at h
+      have hl : 0 < r.length := List.length_pos_iff.2 hne
+      have := ih j h
+      simp only [rowAdr, List.take_succ_cons, List.map_cons, List.sum_cons, List.flatten_cons] at *
+      rw [List.getElem?_append_right (by omega)]
+      rw [← this]; congr 1; omega
+
+theorem foldl_sparseStep_length (ps : List Int) (init : List (List Nat)) :
+    (ps.foldl sparseStep init).length = init.length + ps.length := by
+  induction ps generalizing init with
+  | nil => simp
+  | cons p ps ih => simp only [List.foldl_cons]; rw [ih]; simp [sparseStep]; omega
+
+theorem sparseRows_length (ps : List Int) : (sparseRows ps).length = ps.length := by
+  simpa [sparseRows] using foldl_sparseStep_length ps []
+
+theorem foldl_sparseStep_last (ps : List Int) (init : List (List Nat))
+    (hi : ∀ (k : Nat) (r : List Nat), init[k]? = some r → r.getLast? = some k) :
+    ∀ (k : Nat) (r : List Nat), (ps.foldl sparseStep init)[k]? = some r → r.getLast? = some k := by
+  induction ps generalizing init with
+  | nil => intro k r hk; exact hi k r hk
+  | cons p ps ih =>
+    simp only [List.foldl_cons]
+    apply ih
+    intro k r hk
+    unfold sparseStep at hk
+    by_cases hlt : k < init.length
+    · rw [List.getElem?_append_left hlt] at hk; exact hi k r hk
+    · have hge : init.length ≤ k := Nat.le_of_not_lt hlt
+      rw [List.getElem?_append_right hge] at hk
+      have hk0 : k - init.length = 0 := by
+        rcases Nat.eq_zero_or_pos (k - init.length) with h0 | hpos
+        · exact h0
+        · rw [List.getElem?_eq_none (by simp; omega)] at hk
+          exact absurd hk (by simp)
+      rw [hk0] at hk
+      simp at hk
+      subst hk
+      simp; omega
+
+theorem sparseRows_last (ps : List Int) (i : Nat) (r : List Nat) (h : (sparseRows ps)[i]? = some r) : r.getLast? = some i :=
+  foldl_sparseStep_last ps [] (by simp) i r h
+
 end MjProof.MjxKbi
